@@ -93,8 +93,13 @@ func Verify(a wallet.Address, state *State, sig wallet.Sig) (bool, error) {
 
 // NewAsset returns a variable of type Asset, which can be used
 // for unmarshalling an asset from its binary representation.
+// It returns nil if no backend is registered for the given id.
 func NewAsset(id wallet.BackendID) Asset {
-	return backend[id].NewAsset()
+	b, ok := backend[id]
+	if !ok || b == nil {
+		return nil
+	}
+	return b.NewAsset()
 }
 
 // NewAppID returns an object of type AppID, which can be used for
